@@ -16,6 +16,9 @@ INVARIANTS
   Inv_C18_RevertFirstUsage
   Inv_C28_WellFormed
   Inv_C35_Hashes
+  Inv_C09_HashChain
+  Inv_C34_BlockChain
+  Inv_C34_BlockDigest
 PROPERTIES
   Step_C25_Funds
   Step_C14_RefOutcome
@@ -45,5 +48,9 @@ PROPERTIES
   StepC_C16_TxIdCommitOrder
   StepC_C16_LogIdCommitOrder
   StepC_C09_LinearChain
+  StepC_C12_Serializable
+  Step_C11_ImportFaithful
+  Step_C12_ImportOutcome
+  Step_C34_Quiescent
 POSTCONDITION Accepted
 CHECK_DEADLOCK FALSE
